@@ -459,7 +459,7 @@ namespace GeographicLib {
       throw GeographicErr("Latitude for SetScale not in [-"
                           + to_string(Math::qd) + "d, "
                           + to_string(Math::qd) + "d]");
-    if (fabs(lat) == Math::qd && !(_nc == 0 && lat * _n > 0))
+    if (fabs(lat) == Math::qd && !(_nc == 0 && lat * _sign > 0))
       throw GeographicErr("Incompatible polar latitude in SetScale");
     real x, y, gamma, kold;
     Forward(0, lat, 0, x, y, gamma, kold);
